@@ -8,6 +8,7 @@
 import datetime
 import logging
 import math
+import struct
 from typing import AbstractSet, Set, cast
 
 import flask  # type: ignore
@@ -314,7 +315,12 @@ class ManifestContext:
             self.locationURL = locationURL
         event_generators = EventFactory.create_event_generators(opts)
         for evgen in event_generators:
-            ev_stream = evgen.create_manifest_context(context=vars(self))
+            try:
+                ev_stream = evgen.create_manifest_context(context=vars(self))
+            except (ValueError, ArithmeticError, struct.error) as err:
+                # a value that does not fit into a field of the event
+                raise ManifestNotAvailable(
+                    f'invalid {evgen.PREFIX} event parameters: {err}')
             if evgen.inband:
                 # TODO: allow AdaptationSet for inband events to be
                 # configurable
